@@ -4,6 +4,7 @@ mod art;
 mod cli;
 mod dfs;
 mod flags;
+mod hball;
 mod probe;
 mod util;
 mod visit;
@@ -54,6 +55,7 @@ fn main() {
         "art" => art::run(seed, count, maxn, &mode, &mut out),
         "flags" => flags::run(seed, count, &mut out),
         "dfs" => dfs::run(seed, count, maxn, &mode, &mut out),
+        "hball" => hball::run(seed, count, maxn, &mode, &mut out),
         "probe" => probe::run(&mode),
         "cli" => cli::run(seed, count, maxn, &mut out),
         "visit" => visit::run(seed, count, maxn, &mode, &mut out),
